@@ -178,6 +178,7 @@ def run_shard(desc, seed, tier, col):
     def body(ev):
         form = ev['forms'][0]
         case = {'T': ev['T'], 'enc': ev['encs'][0], 'codec': {'DER': 'DER', 'CER': 'CER'}.get(form, 'BER'), 'form': form}
+        col.begin(case)
         for f in run_case(case, col):
             col.fail(f['sub'], f['kind'], f['msg'], dict(case, only=f['obs']['k']), sig=f['sig'], obs=f.get('obs'))
 
